@@ -90,6 +90,7 @@ fn run_stream<H: BuildHasher + Default + Clone>(a: &Args, sink: &mut Sink) -> se
             large_stream::<H>(sink, &mut rng, &both, &sizes);
             extra = serde_json::json!({"sizes": sizes});
         }
+        "crash" => { let (n, mk) = if thorough { (6000, 40) } else { (700, 12) }; crash_stream::<H>(sink, &mut rng, &both, n, mk); }
         "c06" => random_stream::<H>(sink, &mut rng, &both, &weights_with(&[("sorted_vec", 120), ("sorted_iter", 150)]), n, l),
         "c08" => random_stream::<H>(sink, &mut rng, &both, &weights_with(&[("retain_mut", 90), ("retain", 50), ("iter_mut", 120), ("pop_if", 150)]), n, l),
         "c11" => random_stream::<H>(sink, &mut rng, &both, &weights_with(&[("push_increase", 300), ("push_decrease", 300)]), n, l),
@@ -144,6 +145,59 @@ fn replay<H: BuildHasher + Default + Clone>(a: &Args, sink: &mut Sink) {
     }
 }
 
+/// C10 probe: replay the operations of a case (including injected faults), then run continuation battery `k` on
+/// whatever state resulted, then drop everything.  Runs in its own process: an out-of-bounds unchecked access aborts it.
+fn probe<H: BuildHasher + Default + Clone>(a: &Args) {
+    use std::panic::{catch_unwind, AssertUnwindSafe};
+    TRACK.with(|t| t.set(true));
+    let live0 = LIVE.with(|l| l.get());
+    let f = std::fs::File::open(&a.input).expect("cannot open input");
+    let mut q: AnyQ<H> = AnyQ::new(Kind::Pq);
+    for line in std::io::BufReader::new(f).lines() {
+        let line = line.unwrap();
+        let lhs = line.split(" => ").next().unwrap().trim().to_string();
+        if lhs.is_empty() || lhs.starts_with('#') { continue; }
+        let toks: Vec<&str> = lhs.split_whitespace().collect();
+        if toks[0] == "case" {
+            q = AnyQ::new(if toks.get(2) == Some(&"dpq") { Kind::Dpq } else { Kind::Pq });
+            continue;
+        }
+        let op = Op::parse(&lhs).expect("bad op");
+        let _ = catch_unwind(AssertUnwindSafe(|| apply(&mut q, &op, Lookup::Owned)));
+    }
+    let keys: Vec<u64> = catch_unwind(AssertUnwindSafe(|| present_keys(&q))).unwrap_or_default();
+    let n = keys.len() as u64 + 4;
+    let pq = q.kind() == Kind::Pq;
+    let pop = if pq { Op::Pop } else { Op::PopMin };
+    let popb = if pq { Op::PopIf(0, W::default(), true) } else { Op::PopMax };
+    let mut ops: Vec<Op> = vec![];
+    let pops = |ops: &mut Vec<Op>, o: &Op| for _ in 0..n { ops.push(o.clone()); };
+    match a.seed % 14 {
+        0 => pops(&mut ops, &pop),
+        1 => pops(&mut ops, &popb),
+        2 => { for k in &keys { ops.push(Op::Remove(*k)); } pops(&mut ops, &pop) }
+        3 => { for k in keys.iter().rev() { ops.push(Op::Remove(*k)); } pops(&mut ops, &popb) }
+        4 => { for (j, k) in keys.iter().enumerate() { ops.push(Op::ChangePriority(*k, if j % 2 == 0 { i64::MAX - j as i64 } else { i64::MIN + j as i64 })); } pops(&mut ops, &pop) }
+        5 => { for j in 0..5 { ops.push(Op::Push((900_000 + j, 0, i64::MAX - j as i64))); } pops(&mut ops, &pop); pops(&mut ops, &pop) }
+        6 => { ops.push(Op::IterMut { forget: false, prog: (0..n).map(|j| (Call::F, W { prio: Some(j as i64 % 3), payload: None })).collect() }); pops(&mut ops, &pop) }
+        7 => { ops.push(Op::RetainMut(keys.iter().map(|k| Row { key: *k, keep: k % 2 == 0, w: W { prio: Some(*k as i64 % 5), payload: None } }).collect())); pops(&mut ops, &pop) }
+        8 => { for k in &keys { ops.push(Op::Push((*k, 0, (*k as i64 * 31) % 17))); } for k in &keys { ops.push(Op::Remove(*k)); } pops(&mut ops, &popb) }
+        9 => { ops.push(Op::Drain { forget: false, calls: vec![Call::F, Call::B] }); for j in 0..3 { ops.push(Op::Push((j, 0, j as i64))); } pops(&mut ops, &pop) }
+        10 => { ops.push(Op::Append((0..5).map(|j| (800_000 + j, 0, j as i64)).collect())); pops(&mut ops, &pop) }
+        11 => { let xs: Vec<E> = (0..60).map(|j| (if j % 2 == 0 { 700_000 + j } else { keys.get(j as usize % keys.len().max(1)).copied().unwrap_or(1) }, 0, (j as i64 * 7) % 13)).collect(); ops.push(Op::Extend { lo: 60, hi: Some(60), xs }); pops(&mut ops, &popb); pops(&mut ops, &popb) }
+        12 => { ops.push(if pq { Op::IntoSortedVec } else { Op::IntoDescVec }); ops.push(Op::IntoVec); ops.push(Op::Iter(vec![Call::F, Call::B, Call::L])); ops.push(Op::CloneSwap); pops(&mut ops, &pop) }
+        _ => { ops.push(Op::Convert); let o2 = if pq { Op::PopMax } else { Op::Pop }; for _ in 0..n { ops.push(o2.clone()); } }
+    }
+    let mut panics = 0;
+    for op in &ops {
+        if !op.valid_for(q.kind()) { continue; }
+        if catch_unwind(AssertUnwindSafe(|| apply(&mut q, op, Lookup::Owned))).is_err() { panics += 1; }
+    }
+    let _ = catch_unwind(AssertUnwindSafe(move || drop(q)));
+    let live1 = LIVE.with(|l| l.get());
+    println!("probe ok battery {} safe_panics {} live_delta {}", a.seed % 14, panics, live1 - live0);
+}
+
 fn with_hasher(a: &Args, sink: &mut Sink) -> serde_json::Value {
     macro_rules! go { ($h:ty) => { if a.cmd == "replay" { replay::<$h>(a, sink); serde_json::json!({}) } else { run_stream::<$h>(a, sink) } } }
     match a.hasher.as_str() {
@@ -157,19 +211,24 @@ fn with_hasher(a: &Args, sink: &mut Sink) -> serde_json::Value {
 
 fn main() {
     let a = parse_args();
+    if a.cmd == "probe" {
+        if std::env::var("PQH_VERBOSE").is_err() { std::panic::set_hook(Box::new(|_| {})); }
+        probe::<HRandom>(&a);
+        return;
+    }
     if a.cmd != "gen" && a.cmd != "replay" {
         eprintln!("usage: pqharness gen|replay --stream S --seed N --tier quick|thorough --out FILE [--sync] [--from-case K] [--hasher random|fixed|xx|zero]");
         std::process::exit(2);
     }
     // panics are expected (caught) in some streams: keep stderr quiet
-    std::panic::set_hook(Box::new(|_| {}));
+    if std::env::var("PQH_VERBOSE").is_err() { std::panic::set_hook(Box::new(|_| {})); }
     let file = std::fs::OpenOptions::new().create(true).write(true).truncate(!a.append).append(a.append).open(&a.out).expect("cannot open output");
     let mut w = BufWriter::with_capacity(1 << 20, file);
     let t0 = std::time::Instant::now();
     let (stats, extra) = {
         let mut sink = Sink {
             w: &mut w, sync: a.sync, cases: 0, ops: 0, faults: 0, nontrivial: Default::default(), op_hist: Default::default(),
-            size_hist: Default::default(), samples: vec![], max_cases: a.max_cases, from_case: a.from_case, skip: a.skip.clone(), mute: false, stream: a.stream.clone(),
+            size_hist: Default::default(), samples: vec![], max_cases: a.max_cases, from_case: a.from_case, skip: a.skip.clone(), mute: false, core_only: false, stream: a.stream.clone(),
         };
         let extra = with_hasher(&a, &mut sink);
         let sizes: Vec<(usize, u64)> = sink.size_hist.iter().map(|(k, v)| (*k, *v)).collect();
